@@ -358,6 +358,15 @@ def run(ctx):
         if seen >= 5:
             break
 
+    # --- replay of the refutation witness of assert_never_fires_refuted (finding F18) ---
+    wit = '[$default byte_order: "LittleEndian"]\nstruct Foo:\n  0 [+0]  UInt  x\n  let y = x + 1\n'
+    try:
+        compile_for_bounds(wit)
+        ctx.note("witness of assert_never_fires_refuted no longer crashes the implementation: the refuted theorem should become a positive one")
+    except AssertionError as ex:
+        ctx.violation("bounds-assert:zero-width-leaf", "expression_bounds' own assertion fires on a zero-width integer field",
+                      dict(kind="module", module=wit, exception=repr(ex)), found_input=True)
+
     # --- (iii) direct soundness sampling of the implementation's annotations (support, not proof) ---
     n_env = 0
     for a, b, obj in ec[: (2000 if ctx.thorough() else 400)]:
